@@ -222,55 +222,59 @@ def coq_eval_codes(ctx, name, case_terms, fn="classify", ty="pcase", timeout=150
     return codes, "\n".join(errs)
 
 
-# ------------------------------------------------------------------ probes selecting the model variant = pending findings
+# ------------------------------------------------------------------ fixed witnesses of defects repaired in /repo (regression guards) and of pending ones
 def probes(ctx):
-    """each probe runs a fixed witness program; when the implementation deviates from the reference the deviation is
-    reported under its stable class and the faithful model variant is selected for the correspondence."""
-    bits = 3
+    """Witness programs of the five defects found by this check and since repaired in /repo (fix: commits 1affc6b06, 721ac553d,
+    9346a3a9b): a deviation is a plain violation again.  Plus the witness of the pending one (scalar field/oosvar converted in
+    place while a local is bound to it by reference).  Returns the variant bits of the model (1 = the reference = the tree)."""
     three = [[("a", "1")], [("a", "2")], [("a", "3")]]
-    # F2: a filter statement executed for one record must not decide the fate of later records
-    o = observe(ctx, 'if (NR == 1) {filter false}', three, False)
-    ctx.count(("probe", "filter-sticky"))
-    exp = [("r", [("a", ("int", 2))]), ("r", [("a", ("int", 3))])]
-    if o["class"] != "ok" or o.get("out") != exp:
-        bits &= ~1
-        ctx.violation({"class": "filter-statement-sticky-across-records", "program": "mlr put 'if (NR == 1) {filter false}'",
-                       "input": "a=1\\na=2\\na=3", "observed": o.get("out"), "expected": exp,
-                       "doc": "reference-dsl-filter-statements.md: put 'filter <cond>' is synonymous with filter '<cond>' (a per-record decision)",
-                       "theorem": "C14_filter_is_per_record"})
-    # F3: type declarations are enforced at every assignment, including indexed ones
-    o = observe(ctx, 'end{int x = 3; x["a"] = 1; print typeof(x)}', [], False)
-    ctx.count(("probe", "idx-gate"))
-    if o["class"] == "ok":
-        bits &= ~2
-        ctx.violation({"class": "indexed-assignment-bypasses-type-gate", "program": "mlr -n put 'end{int x = 3; x[\"a\"] = 1; print typeof(x)}'",
-                       "observed": o.get("out"), "expected": "mlr: couldn't assign variable int x from value map (non-zero exit)",
-                       "doc": "reference-dsl-variables.md: type declarations are enforced at the time values are assigned ... in any subsequent assignments to the same variable",
-                       "theorem": "C14_type_gate_enforced_indexed"})
-    # F4: unset of a local followed by an indexed assignment must not change what absent reads return
-    o = observe(ctx, 'end{x = 1; unset x; x["a"] = 1; print typeof(nosuch); print typeof(@y)}', [], False)
-    ctx.count(("probe", "absent-singleton"))
-    if o["class"] != "ok" or o.get("out") != [("s", "absent"), ("s", "absent")]:
-        ctx.violation({"class": "unset-local-then-indexed-assign-corrupts-absent", "program": "mlr -n put 'end{x = 1; unset x; x[\"a\"] = 1; print typeof(nosuch); print typeof(@y)}'",
-                       "observed": o.get("out"), "expected": ["absent", "absent"],
-                       "doc": "reference-main-null-data.md: reads of unset variables are absent"})
-    # F5: assignment copies: index-assigning one local must not change another variable, a field, or the constant true
-    o = observe(ctx, 'end{x = 5; y = x; y["k"] = 1; print typeof(x); b = true; b["k"] = 1; print typeof(1 == 1)}', [], False)
-    ctx.count(("probe", "scalar-alias"))
-    if o["class"] != "ok" or o.get("out") != [("s", "int"), ("s", "boolean")]:
-        ctx.violation({"class": "indexed-assign-on-scalar-local-mutates-shared-value",
-                       "program": "mlr -n put 'end{x = 5; y = x; y[\"k\"] = 1; print typeof(x); b = true; b[\"k\"] = 1; print typeof(1 == 1)}'",
-                       "observed": o.get("out"), "expected": ["int", "boolean"],
-                       "doc": "reference-main-maps.md / reference-dsl-variables.md: assignment copies; property statement: arguments and assignments are by value"})
-    # F1: for-loops bind from a copy of the map made before the loop
-    o = observe(ctx, 'end{@m = {"a":1,"b":2}; for (k,v in @m) { if (k == "a") {@m["c"] = 3; unset @m["b"]} print k.":".v } }', [], False)
-    ctx.count(("probe", "loop-copy"))
-    if o["class"] != "ok" or o.get("out") != [("s", "a:1"), ("s", "b:2")]:
-        ctx.violation({"class": "for-loop-over-map-variable-iterates-live-map", "program": "mlr -n put 'end{@m = {\"a\":1,\"b\":2}; for (k,v in @m) { if (k == \"a\") {@m[\"c\"] = 3; unset @m[\"b\"]} print k.\":\".v } }'",
-                       "observed": o.get("out"), "expected": ["a:1", "b:2"],
-                       "doc": "reference-dsl-control-structures.md: 'The bound variables are bound to a copy of the sub-map as it was before the loop started'"})
-    ctx.cov["variant_selected"] = {"filter_per_record": bool(bits & 1), "indexed_assignment_gated": bool(bits & 2)}
-    return bits
+    R = lambda *kv: ("r", list(kv))
+    table = [
+        ("filter-statement-sticky-across-records", 'if (NR == 1) {filter false}', three, [R(("a", ("int", 2))), R(("a", ("int", 3)))],
+         "reference-dsl-filter-statements.md: put 'filter <cond>' is a per-record decision"),
+        ("indexed-assignment-bypasses-type-gate", 'end{int x = 3; x["a"] = 1; print typeof(x)}', [], "error",
+         "reference-dsl-variables.md: type declarations are enforced at ... any subsequent assignments to the same variable"),
+        ("indexed-assignment-bypasses-type-gate", 'end{str s = "a"; if (true) { s["k"] = 1 } print "no"}', [], "error", "same, from a nested scope"),
+        ("unset-local-then-indexed-assign-corrupts-absent", 'end{x = 1; unset x; x["a"] = 1; print is_absent(nosuch); print is_absent(@y); print x["a"]}', [],
+         [("s", "true"), ("s", "true"), ("s", "1")], "reference-main-null-data.md: reads of unset variables are absent"),
+        ("indexed-assign-on-scalar-local-mutates-shared-value", 'end{x = 5; y = x; y["k"] = 1; print x; b = true; b["k"] = 1; print (1 == 1)}', [],
+         [("s", "5"), ("s", "true")], "assignments are by value"),
+        ("indexed-assign-on-scalar-local-mutates-shared-value", 'c = $a; c["k"] = 1; $t = c["k"]', [[("a", "5")]], [R(("a", ("int", 5)), ("t", ("int", 1)))],
+         "assignments are by value"),
+        ("for-loop-over-map-variable-iterates-live-map", 'end{@m = {"a":1,"b":2}; for (k,v in @m) { if (k == "a") {@m["c"] = 3; unset @m["b"]} print k.":".v } }', [],
+         [("s", "a:1"), ("s", "b:2")], "reference-dsl-control-structures.md: bound to a copy of the sub-map as it was before the loop started"),
+        ("for-loop-over-map-variable-iterates-live-map", 'end{m = {"a":1,"b":2}; for (k in m) { m["c"] = 3; unset m["b"]; print k } for (k, v in m) { m[k] = v + 10; print v }}', [],
+         [("s", "a"), ("s", "b"), ("s", "1"), ("s", "3")], "same, local map, single-variable loop"),
+        # pending: in-place conversion of a scalar FIELD / OOSVAR is seen through a local bound to it by reference
+        ("indexed-assign-on-scalar-field-or-oosvar-changes-aliased-local", 'c = $a; $a["k"] = 1; $t = c', [[("a", "5")]],
+         [R(("a", ("map", [("k", ("int", 1))])), ("t", ("int", 5)))], "assignments are by value: c keeps the value it was assigned"),
+        ("indexed-assign-on-scalar-field-or-oosvar-changes-aliased-local", 'end{@s = 1; c = @s; @s["k"] = 2; print c}', [], [("s", "1")],
+         "assignments are by value: c keeps the value it was assigned"),
+        # pending: return inside a subroutine also terminates the caller's block
+        ("subroutine-return-exits-caller-block",
+         'subr p(str s) { print "in:".s; if (s == "a") { return } print "tail" } call p("a"); print "after1"; call p("b"); print "after2"', [[("a", "5")]],
+         [("s", "in:a"), ("s", "after1"), ("s", "in:b"), ("s", "tail"), ("s", "after2"), R(("a", ("int", 5)))],
+         "reference-dsl-user-defined-functions.md: subroutines are invoked by call and cannot return values; return ends the subroutine"),
+        # pending: emit1 puts the stored map itself into the output stream; later updates change the already emitted record
+        ("emit1-emits-map-by-reference", '@c["n"] = NR; emit1 @c; filter false', three,
+         [R(("n", ("int", 1))), R(("n", ("int", 2))), R(("n", ("int", 3)))],
+         "reference-dsl-output-statements.md: emit1/emit send the variables' CURRENT values to the output record stream"),
+        ("emit1-emits-map-by-reference", 'end{m = {"x": 1}; emit1 m; m["x"] = 2; emit1 m}', [], [R(("x", ("int", 1))), R(("x", ("int", 2)))],
+         "same, local map"),
+    ]
+    cases = [{"text": prog + "\n", "inputs": ins, "quiet": False} for _, prog, ins, _, _ in table]
+    obs = [run_batch(ctx, [c])[0] for c in cases]     # one process each: a corrupted singleton must not leak into the next witness
+    res = {}
+    for (cls, prog, ins, exp, doc), o in zip(table, obs):
+        ctx.count(("probe", prog))
+        good = (o["class"] == "mlr_error") if exp == "error" else (o["class"] == "ok" and o.get("out") == exp)
+        res[cls] = res.get(cls, True) and bool(good)
+        if not good:
+            ctx.violation({"class": cls, "program": "mlr put '%s'" % prog, "input": ins, "observed": {k: o.get(k) for k in ("class", "out", "stderr")},
+                           "expected": exp, "doc": doc})
+    ctx.cov["witness_probes"] = res
+    ctx.cov["variant_selected"] = {"filter_per_record": True}
+    return 1
 
 
 # ------------------------------------------------------------------ main
@@ -290,7 +294,7 @@ def run(ctx):
         levels = P.gen_precedence(REPO)
     ctx.cov["precedence_levels_from_bnf"] = [[ops, a, k] for ops, a, k in levels]
     forbidden_gate(ctx, ["Base", "C14"])
-    ok, why = check_props(ctx, "C14/Props.v", ["C14/Harness.vo", "C14/Proofs.vo", "C14/StackProofs.vo", "C14/PrecProofs.vo", "C14/InterpProofs.vo", "C14/ScopeProofs.vo"])
+    ok, why = check_props(ctx, "C14/Props.v", ["C14/Harness.vo", "C14/Proofs.vo", "C14/StackProofs.vo", "C14/PrecProofs.vo", "C14/InterpProofs.vo", "C14/ScopeProofs.vo", "C14/DepthProofs.vo"])
     bad, trees, block = P.behavioural_tie(ctx, 150 if ctx.tier == "quick" else 3000)
     if bad:
         ctx.violation(bad, found_input="expression" in bad)
@@ -447,6 +451,7 @@ def cells(ctx, bits):
     cases.append(prog_of([("and", a, b) for a in vals for b in vals]))
     cases.append(prog_of([("or", a, b) for a in vals for b in vals]))
     cases.append(prog_of([("not", a) for a in vals] + [("neg", a) for a in vals] + [("coal", a, b) for a in vals for b in vals[:4]]
+                         + [("fun1", fn, a) for fn in G.FUN1 for a in vals]
                          + [("tern", a, ("int", 1), ("int", 2)) for a in vals] + [("index", a, b) for a in vals for b in vals if a[0] in ("maplit", "oos", "bool") or (a[0] == "int" and a[1] >= 0)]))
     # gate table: every declared type x every kind of value, inside a function so that a rejected assignment is an error VALUE
     for ty in ["var", "int", "num", "str", "bool", "map", "float", "arr", "funct"]:
